@@ -12,7 +12,7 @@ PROPS = ["C15"]
 ENGINE = "spec/MergeSource: monitor + implementation-shaped model (TLC exhaustive), replay of all TLC behaviours into the real MergeSource, trace validation of seeded random runs"
 MANIFEST = {
     "C15": {
-        "text": "TLC exhaustively checks the implementation-shaped model of poll_next (cursor, None-marking, compaction) against the C15 monitor for every configuration of <=3 sources x scripts <=3 (4 thorough); every TLC behaviour is replayed into the real MergeSource<TaggedSource> and seeded random larger runs are recorded; TLC validates all recorded traces against the monitor (per-sender order, no loss/dup, end exactly when all ended, one-round fairness).",
+        "text": "(a) MergeSource: TLC exhaustively checks the implementation-shaped model of poll_next (cursor, None-marking, compaction) against the C15 monitor for every configuration of <=3 sources x scripts <=3 (4 thorough); every TLC behaviour is replayed into the real MergeSource<TaggedSource> and seeded random larger runs are recorded; TLC validates all recorded traces against the monitor (per-sender order, no loss/dup, end exactly when all ended, one-round fairness). (b) The TCP copy of the same merge, multi_connection.rs TcpMultiConnectionSource, is driven over loopback sockets with seeded random connect/send/close/poll scripts and validated black-box against MultiConn.tla (per-connection order, no loss/dup, one id per client, served within one round inside a poll round).",
         "note": "Trusts the scripted stream doubles and hook H1 (constructor only). Sources are fused. Bounded: <=6 sources, scripts <=8 in random runs.",
         "technique": "TLA+ spec model-checked with TLC + conformance (TLC behaviours replayed into the code; code traces validated by TLC)",
         "design_ref": "DESIGN.md §6.8",
@@ -139,9 +139,61 @@ def run(tier):
             raise vlib.ToolError("canary (two swapped items of one sender) was NOT rejected by the trace spec")
         res.extra["canary"] = "swapped items of one sender rejected: %s" % cviol[:2]
 
+    # (5) the TCP copy of the same merge (multi_connection.rs TcpMultiConnectionSource) over loopback,
+    #     black-box: seeded random connect/send/close/poll scripts, validated against MultiConn.tla
+    bindir = vlib.cargo_build("hv_pipes", bins=["tcp_multi"])
+    texe = os.path.join(bindir, "tcp_multi")
+    ttrace = os.path.join(d, "tcp_trace.ndjson")
+    p = vlib.run_bin(texe, ["random", 1500 if thorough else 250, 4, 5, ttrace], timeout=2400)
+    if p.returncode != 0:
+        raise vlib.ToolError("tcp_multi failed: " + p.stderr[-2000:])
+    tsumm = json.loads(p.stdout.strip().splitlines()[-1])
+    ok, r = vlib.validate_trace(SD, "MultiConnTrace", ttrace, tag="ms_tcp")
+    if not ok:
+        raise vlib.ToolError("tcp trace not consumed by MultiConnTrace:\n" + r.error_trace[-2000:])
+    res.add_tlc(r, "trace-validation:tcp-multi-connection")
+    tviol = vlib.printed_json(r, "VIOL", required=True)[0]
+    res.traces += tsumm["cases"]
+    res.evaluations += tsumm["cases"]
+    tevs = vlib.read_ndjson(ttrace)
+    multi = set()
+    cur, sends = None, 0
+    for e in tevs:
+        if e.get("e") == "reset":
+            cur, sends = e, 0
+        elif e.get("e") == "send":
+            sends += 1
+        elif e.get("e") == "drained" and cur is not None and cur["n"] >= 2 and sends >= 3:
+            multi.add(cur["case"])
+    res.distinct_nontrivial += len(multi)
+    for case, rule in tviol:
+        evs, on = [], False
+        for e in tevs:
+            if e.get("e") == "reset":
+                on = e.get("case") == case
+            if on:
+                evs.append(e)
+        res.violation("tcpmulti/%s" % rule, "rule %s broken by TcpMultiConnectionSource in random case %s" % (rule, case),
+                      {"events": evs, "kind": "tcp"})
+    # canary for the TCP monitor: swap two consecutive frames of one client
+    idx = [i for i, e in enumerate(tevs) if e.get("e") == "ret"]
+    for a in range(len(idx) - 1):
+        i, j = idx[a], idx[a + 1]
+        if tevs[i]["c"] == tevs[j]["c"] and all(e.get("e") != "reset" for e in tevs[i:j]):
+            tevs[i]["q"], tevs[j]["q"] = tevs[j]["q"], tevs[i]["q"]
+            ctr = os.path.join(d, "tcp_canary.ndjson")
+            vlib.write_ndjson(ctr, tevs)
+            ok2, r2 = vlib.validate_trace(SD, "MultiConnTrace", ctr, tag="ms_tcp_canary")
+            cv = vlib.printed_json(r2, "VIOL", required=True)[0] if ok2 else []
+            if not cv:
+                raise vlib.ToolError("TCP canary (two swapped frames of one client) was NOT rejected")
+            res.extra["tcp_canary"] = "swapped frames rejected: %s" % cv[:1]
+            break
+
     res.rule = ("cases = script configurations (each source: sequence of items/Pending, then End); "
                 "non-trivial = at least 2 sources, at least one Pending and at least one item; distinct by scripts")
-    res.assumptions = ["sources are fused (answer End forever after their script)",
+    res.assumptions = ["TCP part: loopback sockets; frames written before a settle period (sleep + reactor turn) are deliverable in the next poll round; the drain waits up to ~10 s before a frame counts as lost",
+                       "sources are fused (answer End forever after their script)",
                        "hook H1 (verif_new/verif_state) constructs the real MergeSource/TaggedSource unchanged",
                        "fairness formalised as: while a live source waits to be polled, every other source is served at most once"]
     return {"C15": res}
@@ -154,6 +206,11 @@ def replay(pid, path):
     t = os.path.join(d, "replay_one.ndjson")
     vlib.write_ndjson(t, rep["case"]["events"] + [{"e": "eof"}])
     tmp = vlib.PropResult(pid)
+    if rep["case"].get("kind") == "tcp":
+        ok, r = vlib.validate_trace(SD, "MultiConnTrace", t, tag="ms_tcp_replay")
+        viol = vlib.printed_json(r, "VIOL", required=True)[0] if ok else [["?", "trace-not-consumed"]]
+        print("recorded TCP events re-validated; rules broken:", viol)
+        return 1 if viol else 0
     viol, _ = _validate(t, tmp, "replay_one")
     print("recorded events re-validated; rules broken:", viol)
     return 1 if viol else 0
